@@ -5,6 +5,7 @@ import EtVerif.Props.TrC01
 import EtVerif.Props.TrGo05
 import EtVerif.Props.TrChk
 import EtVerif.Props.TrSrc
+import EtVerif.Props.TrGoSrc
 #print axioms EtVerif.C05.loop_returns_iterate
 #print axioms EtVerif.C05.loop_returns_iterate_init
 #print axioms EtVerif.C05.stopIter_spec
@@ -98,3 +99,29 @@ import EtVerif.Props.TrSrc
 #print axioms EtVerif.TrSrc.compute_src_refuses_validation
 #print axioms EtVerif.TrSrc.oracleOK_of_forall
 #print axioms EtVerif.TrSrc.go_compute_src_distribution
+-- the properties stated about basic.Compute translated TOGETHER WITH the source convergence checker (Props/TrGoSrc)
+#print axioms EtVerif.TrGoSrc.go_compute_src_returns
+#print axioms EtVerif.TrGoSrc.go_compute_src_returns_iterate
+#print axioms EtVerif.TrGoSrc.go_compute_src_stop_spec
+#print axioms EtVerif.TrGoSrc.go_compute_src_stop_first
+#print axioms EtVerif.TrGoSrc.go_compute_src_withIterations
+#print axioms EtVerif.TrGoSrc.go_compute_src_ok_of_loop
+#print axioms EtVerif.TrGoSrc.go_compute_src_fuel_independent
+#print axioms EtVerif.TrGoSrc.go_compute_src_invalid_rejected
+#print axioms EtVerif.TrGoSrc.go_compute_src_invalid_error
+#print axioms EtVerif.TrGoSrc.go_compute_src_nonFinite
+#print axioms EtVerif.TrGoSrc.go_compute_src_stats
+#print axioms EtVerif.TrGoSrc.go_compute_src_stats_fields
+#print axioms EtVerif.TrGoSrc.go_compute_src_criteria_stop
+#print axioms EtVerif.TrGoSrc.go_compute_src_criteria_first
+#print axioms EtVerif.TrGoSrc.go_compute_src_stop_first_exact
+#print axioms EtVerif.TrGoSrc.go_compute_src_ranking_top
+#print axioms EtVerif.TrGoSrc.go_compute_src_ranking_all
+#print axioms EtVerif.TrGoSrc.go_compute_src_terminates_schedule
+#print axioms EtVerif.TrGoSrc.go_compute_src_terminates_default
+#print axioms EtVerif.TrGoSrc.go_compute_src_terminates_with_t0
+#print axioms EtVerif.TrGoSrc.go_compute_src_terminates_alpha_one
+#print axioms EtVerif.TrGoSrc.go_compute_src_terminates_first
+#print axioms EtVerif.TrGoSrc.go_compute_src_converged_bound
+#print axioms EtVerif.TrGoSrc.go_compute_src_converged_bound_unique
+#print axioms EtVerif.TrGoSrc.go_compute_src_default_bound
